@@ -91,6 +91,25 @@ pub fn cases(tier: Tier) -> Vec<GCase> {
             }
         }
     }
+    // non-initial states: the witness was already range-checked to another width
+    {
+        let ws: Vec<usize> = match tier { Tier::Quick => vec![1, 8, 9, 64, 252, 254], Tier::Thorough => vec![0, 1, 2, 3, 8, 9, 16, 17, 64, 127, 128, 251, 252, 253, 254] };
+        for &w1 in &ws {
+            for &w2 in &ws {
+                if w1 == w2 {
+                    continue;
+                }
+                let (lo, hi) = (w1.min(w2), w1.max(w2));
+                for x in [pow2(lo) - one(), pow2(lo), pow2(hi) - one(), pow2(hi)] {
+                    let expect = if m5::in_range(&x, lo) { Expect::Sat(vec![]) } else { Expect::Unsat };
+                    let mut c = GCase::new(gadget(Entry::Bits, w2, x).with_prelude(&format!("range{}", w1), move |c, ins| { dispatch::range_bits(c, ins[0], w1); Ok(()) }), expect, "range/with-history");
+                    c.dev_stride = if w2 <= 17 { 1 } else { 0 };
+                    c.confirm = true;
+                    out.push(c);
+                }
+            }
+        }
+    }
     // the composer's constant witnesses as the range-checked value
     for w in widths(tier) {
         for x in [zero(), one()] {
